@@ -26,7 +26,7 @@ func init() {
 			"every 12th batch runs two graphs with two layers of 68-74 nodes (matrices of thousands of cells in the ordering phase); one batch in 240 (quick: 1, thorough: 4) starves 16 calls of about two seconds each on one processor (a result depending on elapsed time then differs from its reference); " +
 			"non-trivial = a batch in which calls on different algorithm cells actually overlapped in time (measured with an in-flight counter)",
 		MinNontrivial: counts(24, 240),
-		Required:      []string{"overlapping_calls", "concurrent_calls", "equality_checks", "preamble:2", "preamble:3"},
+		Required:      []string{"overlapping_calls", "concurrent_calls", "equality_checks", "preamble:2", "preamble:3", "family:batch-mixed-sizes", "family:batch-wide-layers"},
 		Budget:        600, // the race detector costs 5-15x; the budget only bounds a stuck worker (hangs are C01's business)
 		Assumptions: []string{
 			"the static enumeration of package-level variables named in the property's quantifier is a static analysis and is NOT done; the runtime substitute is the quiescent-state check of the globals plus the race detector over the executed paths",
@@ -59,6 +59,28 @@ func init() {
 				}
 				c.Conc = conc
 				c.Family = "batch-wide-layers"
+				return c
+			case idx%12 == 9:
+				// small graphs next to large ones: most goroutines lay out trees of 150-220 nodes with mixed widths (deep recursion
+				// and many passes in the positioners), a quarter of them loops over graphs of 4-8 nodes. State that is summed or
+				// shared over all running calls (a process-wide depth or pass counter, a shared budget) hits the small calls
+				conc.Goroutines, conc.Rounds, conc.Procs = 24, 2, []int{4, 16, 16}[r.Intn(3)]
+				conc.Preamble = 0
+				for i := 0; i < 12; i++ {
+					var g gen.IG
+					if i < 3 {
+						g = gen.Tree(r, 150+r.Intn(71), r.Intn(2) == 0)
+					} else {
+						g = gen.DAG(r, 4+r.Intn(5), 0.5)
+					}
+					edges := gen.Names(g)
+					var o core.Opts
+					o.Positioner, o.Router = []int{0, 0, 1, 2}[r.Intn(4)], []int{4, 1, 0}[r.Intn(3)]
+					heteroSizes(r, &o, nodeIDs(edges), "dyadic", 200, 0.05)
+					conc.Inputs = append(conc.Inputs, core.ConcInput{Edges: edges, Opts: o})
+				}
+				c.Conc = conc
+				c.Family = "batch-mixed-sizes"
 				return c
 			case idx%240 == 7:
 				// CPU starvation: calls that take about two seconds alone under the race detector (network simplex positioner on a 110-130 node tree) are
@@ -147,8 +169,20 @@ func init() {
 				go func(g int) {
 					defer wg.Done()
 					<-start
-					for round := 0; round < cc.Rounds; round++ {
+					rounds := cc.Rounds
+					if c.Family == "batch-mixed-sizes" && g%4 == 0 {
+						rounds = cc.Rounds * 40
+					}
+					for round := 0; round < rounds; round++ {
 						i := (g*7 + round*3) % len(cc.Inputs)
+						if c.Family == "batch-mixed-sizes" {
+							// inputs 0-2 are the large trees, the others are small
+							if g%4 == 0 {
+								i = 3 + (g/4+round)%(len(cc.Inputs)-3)
+							} else {
+								i = (g + round) % 3
+							}
+						}
 						in := cc.Inputs[i]
 						current.Store(g, in.Opts.Cell())
 						n := inflight.Add(1)
@@ -207,6 +241,7 @@ func init() {
 			r.stat(fmt.Sprintf("goroutines:%d", cc.Goroutines), 1)
 			r.stat(fmt.Sprintf("gomaxprocs:%d", cc.Procs), 1)
 			r.stat(fmt.Sprintf("preamble:%d", cc.Preamble), 1)
+			r.stat("family:"+c.Family, 1)
 			if wantSample {
 				r.Sample = map[string]any{"index": c.Index, "goroutines": cc.Goroutines, "gomaxprocs": cc.Procs, "rounds": cc.Rounds, "inputs": len(cc.Inputs),
 					"calls": calls.Load(), "overlapping_calls": overlapped.Load(), "first_input": cc.Inputs[0]}
